@@ -5,17 +5,23 @@ Bounded-exhaustive exploration on the real `opticomlib.devices.MZM / PM / LASER`
 * part `mzm.lattice`   deviation lattice (k <= 2 quick, k <= 3 thorough) over
                        (drive values, bias, Vpi, loss, ER, pol) with the FULL product over
                        (layout x noise kind x drive container) at every lattice point;
-* part `pm.product`    full product (layout x noise x container x drive values x Vpi) for PM;
+* part `mzm.dtypes`    the same lattice with k-1 for the stored-dtype layouts (real / int64 / int32 / float32 /
+                       complex64 fields whose noise has the same dtype);
+* part `pm.product`    full product (layout incl. the dtype layouts x noise x container x drive values x Vpi) for PM;
 * part `pm.seq2/seq3`  every ordered sequence of 2 / 3 PM operations from a drive alphabet
                        (additivity PM(PM(x,a),b) == PM(x,a+b));
 * part `laser.product` LASER under the scripted RNG: every phase-noise answer vector of the
-                       answer alphabet x every offset on an FFT bin x powers x linewidths x grids;
+                       answer alphabet x every offset on an FFT bin x powers x linewidths x grids x
+                       time-vector kinds (float64 / float32 seconds, int64 / int32 / uint8 sample indices);
 * part `laser.nyquist` offsets beyond fs/2 must raise ValueError.
 
 MZM and PM are memoryless per sample, so the alphabets are per-sample: the six field values
 {0, 1, -1, j, 0.5-0.5j, 2} cycle with period 6 and the 17 drive levels {-2Vpi..2Vpi step Vpi/4}
 with period 17; the record `prod102` (N = 102 = 6*17, gcd = 1) contains every (field value,
-drive level) pair exactly once.
+drive level) pair exactly once.  Record lengths are 1, 2, 3, 6, 102: for every field length N (N = 1 included)
+every drive length of {0, 2, 3, N-1, N+1, N+6, 2N} must raise ValueError in every waveform container (ndarray of
+float64 / int64 / float32, list, electrical_signal of float / int / complex / with noise); a length-1 array against
+N > 1 is either rejected with ValueError or applied as the constant drive (the statement leaves that open).
 
 Reference model (boring): out = in * sqrt(loss) * (cos th + j 10^(-ER/20) sin th),
 th = pi (u + bias) / (2 Vpi) for MZM; out = in * exp(j pi u / Vpi) for PM; sqrt(P) times unit
